@@ -218,6 +218,21 @@ DoneErrPairs ==
        MissTok(S.errs[e].k) # "" =>
          \E i \in 1..Len(S.toks) : /\ S.toks[i].ty = MissTok(S.errs[e].k)
                                     /\ S.toks[i].c = S.errs[e].c /\ TokEnd(i) = S.toks[i].c
+\* ... and every zero-width symbol token (other than the end-of-input semicolon) has its error
+MissErrOf(ty) ==
+  CASE ty = "RPAREN" -> "MissingExpectedRParen" [] ty = "ASSIGN" -> "MissingExpectedAssign"
+    [] ty = "LPAREN" -> "MissingExpectedLParen" [] ty = "COMMA" -> "MissingExpectedComma"
+    [] ty = "FSLASH" -> "MissingExpectedFSlash" [] ty = "SEMI" -> "MissingExpectedSemiOrEOF" [] OTHER -> ""
+DoneTokHasErr ==
+  phase = "done" =>
+    \A i \in 1..Len(S.toks) :
+       (MissErrOf(S.toks[i].ty) # "" /\ TokEnd(i) = S.toks[i].c /\ ~(S.toks[i].ty = "SEMI" /\ S.toks[i].c = TLen(T))) =>
+         \E e \in 1..Len(S.errs) : S.errs[e].k = MissErrOf(S.toks[i].ty) /\ S.errs[e].c = S.toks[i].c
+\* C02/C06 (design level): only the virtual token types may be empty
+MayBeEmpty == {"EOF", "SEMI", "RPAREN", "LPAREN", "ASSIGN", "COMMA", "FSLASH", "MacroStringEmpty", "MacroSep",
+               "DatalinesData", "StringExprEnd"}
+DoneWidths ==
+  phase = "done" => \A i \in 1..Len(S.toks) : TokEnd(i) > S.toks[i].c \/ S.toks[i].ty \in MayBeEmpty
 \* The hypotheses of spec/BufferProof.tla (BufOK2), on the model's buffer, in every reachable state: line starts are
 \* strictly increasing, every token carries the index of the line its start lies on, token starts never decrease.
 \* With the two theorems proved there by tlapm for *every* such buffer this gives C04 (start line) and C05
